@@ -226,6 +226,8 @@ pub fn run(c: &Value) -> Value {
         ("transitions", "f64") => mk_target_and_run::<f64, B64>(c),
         ("build_tree", "f32") => bt::<f32, B32>(c),
         ("build_tree", "f64") => bt::<f64, B64>(c),
+        ("multi", "f32") => multi::<f32, B32>(c),
+        ("multi", "f64") => multi::<f64, B64>(c),
         ("replay_draws", "f32") => replay_draws::<f32>(c),
         ("replay_draws", "f64") => replay_draws::<f64>(c),
         ("find_eps", "f32") => fre::<f32, B32>(c),
@@ -256,4 +258,51 @@ where
         })
         .collect();
     json!({"values": vals})
+}
+
+/// The multi-chain wrapper NUTS against stand-alone chains: NUTS::new(target, inits, accept).set_seed(seed).run(n, d)
+/// (or run_progress), then the adaptation state of every chain, next to the state of a NUTSChain built from the same
+/// start point with seed + i + 1 and run alone.
+fn multi<T, B>(c: &Value) -> Value
+where
+    T: Tf + Send + rand_distr::uniform::SampleUniform + num_traits::FromPrimitive,
+    B: AutodiffBackend + Send,
+    rand_distr::StandardNormal: rand::distr::Distribution<T>,
+    rand_distr::StandardUniform: rand_distr::Distribution<T>,
+    rand_distr::Exp1: rand_distr::Distribution<T>,
+{
+    use mini_mcmc::nuts::NUTS;
+    let t = |x: f64| T::from_f64(x).unwrap();
+    let f = |x: T| num_traits::ToPrimitive::to_f64(&x).unwrap().to_bits();
+    let inits: Vec<Vec<T>> = arr(c, "inits").iter().map(|r| u64s(r).into_iter().map(|b| t(f64::from_bits(b))).collect()).collect();
+    let acc = c["accept"].as_f64().unwrap_or(0.8);
+    let seed = u64f(c, "seed");
+    let (n, d) = (us(c, "n"), us(c, "d"));
+    let target = DiffableGaussian2D::new([t(0.0), t(0.0)], [[t(1.0), t(0.0)], [t(0.0), t(1.0)]]);
+    let mut s = NUTS::<T, B, _>::new(target.clone(), inits.clone(), t(acc)).set_seed(seed);
+    if c["progress"].as_bool().unwrap_or(false) {
+        let _ = s.run_progress(n, d).expect("run_progress");
+    } else {
+        let _ = s.run(n, d);
+    }
+    let st = |x: (usize, T, T, T, T, usize)| json!([x.0, f(x.1), f(x.2), f(x.3), f(x.4), x.5]);
+    let wrapper: Vec<Value> = s.adapt_states_verif().into_iter().map(st).collect();
+    let alone: Vec<Value> = inits
+        .iter()
+        .enumerate()
+        .map(|(i, x0)| {
+            let mut ch = NUTSChain::<T, B, _>::new(target.clone(), x0.clone(), t(acc)).set_seed(seed.wrapping_add(i as u64).wrapping_add(1));
+            if c["progress"].as_bool().unwrap_or(false) {
+                // run_progress of the wrapper performs n + d transitions after init_chain
+                ch.init_chain_verif(n, d);
+                for _ in 0..(n + d) {
+                    ch.step();
+                }
+            } else {
+                let _ = ch.run(n, d);
+            }
+            st(ch.adapt_state())
+        })
+        .collect();
+    json!({"wrapper": wrapper, "alone": alone})
 }
